@@ -20,11 +20,15 @@ import (
 	"verif/h/walk"
 )
 
-var kfNamedI8 bool
+var kfNamedI8, kfNamedVec bool
 
 func TestMain(m *testing.M) {
 	hx.Main(m, "C02", func() {
 		kfNamedI8 = kf.Activate("KF-C02-named-i8-blockaddress", func(in string) bool {
+			class, _ := fixpoint(in)
+			return class == "not_structurally_identical"
+		})
+		kfNamedVec = kf.Activate("KF-C02-named-vector-derived-type", func(in string) bool {
 			class, _ := fixpoint(in)
 			return class == "not_structurally_identical"
 		})
@@ -190,6 +194,11 @@ func TestGenerated(t *testing.T) {
 			// known finding: the named alias of i8 is not kept at blockaddress positions
 			delete(noise.TypeAlias, "i8")
 			kf.Hit("KF-C02-named-i8-blockaddress")
+		}
+		if noise.VecAlias && kfNamedVec {
+			// known finding: the name of a vector type is not kept where the IR derives the type of a value itself
+			noise.VecAlias = false
+			kf.Hit("KF-C02-named-vector-derived-type")
 		}
 		x := m.TextNoisy(noise)
 		hx.Eval(1)
